@@ -25,7 +25,7 @@ from c11 import HAND_SCHEMA
 
 PROP = "C03"
 PROP_FILE = "C03_Typecheck"
-THEOREMS = []
+THEOREMS = ['c03_sound_partial', 'c03_impossible_partial', 'c03_policy_sound_partial']
 
 MANIFEST = {
     "text": "Executable Gallina typechecker `tc` transcribed arm by arm from validator/typecheck.rs (+ subtype / lub / "
@@ -100,7 +100,7 @@ def gen_cases(rng, sid, npol):
     out = []
     envs_all = tgen.request_envs(sg.rs)
     for k in range(npol):
-        p = tgen.gen_policy(rng, sg.rs, depth=rng.choice([2, 3, 3, 4]))
+        p = tgen.gen_policy(rng, sg.rs, depth=rng.choice([1, 1, 2, 3, 3, 4]))   # small bodies: the root type is the atom's type
         try:
             text = tgen.policy_text(p)
         except cedar.NotExpressible:
